@@ -4,7 +4,9 @@ For every <round dir>/<ID>/out/<n>/patch.diff: run the property's own check (or 
 worktree with the change applied (tools/try_wt.py), four at a time. Results are appended to <round dir>/results.txt."""
 import subprocess, sys, os, glob, threading, queue
 args = sys.argv[1:]
-checks, seed = None, "1"
+checks, seed, slots = None, "1", [0, 1, 2]
+if "--slots" in args:
+    i = args.index("--slots"); slots = [int(x) for x in args[i + 1].split(",")]; del args[i:i + 2]
 if "--checks" in args:
     i = args.index("--checks"); checks = args[i + 1].split(","); del args[i:i + 2]
 if "--seed" in args:
@@ -30,6 +32,6 @@ def worker(slot):
                     if " seed=" in l:
                         f.write("%s/%s %s\n" % (pid, n, l))
                         print("%s/%s %s" % (pid, n, l[:400]), flush=True)
-ts = [threading.Thread(target=worker, args=(s,)) for s in range(3)]
+ts = [threading.Thread(target=worker, args=(s,)) for s in slots]
 for t in ts: t.start()
 for t in ts: t.join()
